@@ -125,6 +125,28 @@ class SimFS:
         self.do(f'replace {posixpath.basename(src)}->{posixpath.basename(dst)}', go)
 
 
+    def rename(self, src, dst) -> None:
+        """os.rename: same atomic name swap as replace on POSIX."""
+        src, dst = str(src), str(dst)
+
+        def go():
+            if src not in self.names:
+                raise FileNotFoundError(src)
+            self.names[dst] = self.names.pop(src)
+        self.do(f'rename {posixpath.basename(src)}->{posixpath.basename(dst)}', go)
+
+    def unlink(self, path, missing_ok: bool = False) -> None:
+        path = str(path)
+
+        def go():
+            if path not in self.names:
+                if missing_ok:
+                    return
+                raise FileNotFoundError(path)
+            del self.names[path]  # an open writer keeps its inode
+        self.do(f'unlink {posixpath.basename(path)}', go)
+
+
 class _Reader:
     def __init__(self, text: str) -> None:
         self.text = text
@@ -218,6 +240,17 @@ class SimPath:
     def mkdir(self, parents=False, exist_ok=False) -> None:
         self.fs.do(f'mkdir {self.name}', lambda: self.fs.mkdir(self.path, parents, exist_ok))
 
+    def unlink(self, missing_ok: bool = False) -> None:
+        self.fs.unlink(self.path, missing_ok)
+
+    def rename(self, target):
+        self.fs.rename(self.path, str(target))
+        return SimPath(self.fs, str(target))
+
+    def replace(self, target):
+        self.fs.replace(self.path, str(target))
+        return SimPath(self.fs, str(target))
+
     def __str__(self) -> str:
         return self.path
 
@@ -234,6 +267,9 @@ class SimPath:
 class _FakeOs:
     def __init__(self, fs: SimFS) -> None:
         self.replace = fs.replace
+        self.rename = fs.rename
+        self.remove = fs.unlink
+        self.unlink = fs.unlink
 
 
 class _FakePathlib:
